@@ -66,6 +66,21 @@ def gen_text_a(rng, allow_error=True):
     return text
 
 
+NLIB = 3
+LIB_TEXT0 = "x0 = 1\nl%d = 2\nclass K0:\n    a%d = 3\n"
+
+
+def gen_lib_text(rng, k):
+    lines = ["x0 = %d" % rng.randint(0, 9)]
+    if rng.random() < 0.6:
+        lines.append("l%d = %d" % (k, rng.randint(0, 9)))
+    if rng.random() < 0.8:
+        lines.append("class K0:\n    a%d = %d\n    def m%d(self):\n        return 1" % (rng.randint(0, 2), rng.randint(0, 9), rng.randint(0, 2)))
+    if rng.random() < 0.3:
+        lines.append("def f0():\n    return 1")
+    return "\n".join(lines) + "\n"
+
+
 def gen_text_b(rng, in_package=False, own=None):
     """stream B: from-imports, star imports, calls, instances, base classes from other modules, relative imports"""
     lines = []
@@ -87,6 +102,16 @@ def gen_text_b(rng, in_package=False, own=None):
         else:
             lines.append("import zm%d" % k)
             lines.append("class D%d(zm%d.K0):\n    d%d = 1" % (k, k, k))
+    if rng.random() < 0.45:
+        # a module of the library folder on python_path
+        k = rng.randrange(NLIB)
+        r = rng.random()
+        if r < 0.4:
+            lines.append("import zl%d\nq%d = zl%d.x0\nr%d = zl%d.K0()" % (k, k, k, k, k))
+        elif r < 0.7:
+            lines.append("from zl%d import K0 as L%d, x0 as g%d\nj%d = L%d()" % (k, k, k, k, k))
+        else:
+            lines.append("from zl%d import *\nh%d = l%d" % (k, k, k))
     lines.append("x0 = %d" % rng.randint(0, 9))
     if own is not None and rng.random() < 0.6:
         lines.append("e%d = %d" % (own, rng.randint(0, 9)))   # the name this module exports to star importers
@@ -109,7 +134,15 @@ class Driver:
         self.stream, self.soa, self.record = stream, bool(soa), record and stream == "A"
         self.texts = W.Texts()
         self.root = tempfile.mkdtemp(prefix="ropeverif-c13-")
-        self.project = Project(self.root, ropefolder=None, automatic_soa=self.soa)
+        # stream B: a library folder outside the project root, reached through the python_path preference; its
+        # modules are resources of the NoProject singleton but are cached and watched by this project
+        self.lib = None
+        if stream == "B":
+            self.lib = tempfile.mkdtemp(prefix="ropeverif-c13lib-")
+            for k in range(NLIB - 1):
+                with open(os.path.join(self.lib, "zl%d.py" % k), "w") as f:
+                    f.write(LIB_TEXT0 % (k, k))
+        self.project = self.new_project(self.root)
         self.cases = []          # (pre, kind, post) ; kind = ("rope", xop) | ("ext", xops) | ("q", q, ans) | ("free",)
         self.fake = 1000000000
         self.safe_undo = 0       # changes at the end of the undo list made after the last external batch
@@ -119,11 +152,35 @@ class Driver:
                                                    created=self._ev_created, removed=self._ev_removed))
         self.events = 0
 
+    def new_project(self, root):
+        """a Project with this history's configuration (the reference is a fresh project with the same prefs)"""
+        from rope.base.project import Project
+        prefs = {"automatic_soa": self.soa}
+        if self.lib:
+            prefs["python_path"] = [self.lib]
+        return Project(root, ropefolder=None, **prefs)
+
     def close(self):
         try:
             self.project.close()
         finally:
             shutil.rmtree(self.root, ignore_errors=True)
+            if self.lib:
+                shutil.rmtree(self.lib, ignore_errors=True)
+
+    def libchange(self, act):
+        """a library module is edited / created / removed behind rope's back, then project.validate()"""
+        real = os.path.join(self.lib, act[1])
+        if act[0] == "libremove":
+            os.remove(real)
+        else:
+            with open(real, "w") as f:
+                f.write(act[2])
+            self.bump(real)
+        self.bump(self.lib)
+        self.safe_undo = self.safe_redo = 0
+        self.project.validate()
+        self.case(("free",))
 
     # -- snapshots and cases -------------------------------------------------------------------
     def snap(self):
@@ -188,7 +245,7 @@ class Driver:
         try:
             return self._perform(act)
         finally:
-            if k not in ("undo", "redo", "external", "pending", "q"):
+            if k not in ("undo", "redo", "external", "pending", "q", "libedit", "libcreate", "libremove"):
                 if len(pj.history.undo_list) > nundo:
                     self.safe_undo += 1
                     self.safe_redo = 0
@@ -247,6 +304,8 @@ class Driver:
             self.external(act[1], act[2] if len(act) > 2 else "")
         elif k == "pending":
             self.pending(act[1])
+        elif k in ("libedit", "libcreate", "libremove"):
+            self.libchange(act)
         elif k == "q":
             self.query(act[1:])
         else:
@@ -385,7 +444,7 @@ class Driver:
             roots.append(copy)
         try:
             for r in roots:
-                fp = Project(r, ropefolder=None, automatic_soa=self.soa)
+                fp = self.new_project(r)
                 try:
                     fresh = W.rich_answers(fp, sel)
                 finally:
@@ -480,6 +539,20 @@ def gen_action(rng, drv, tree):
     tset = set(files) | set(folders)
     if drv.safe_redo > 0 and rng.random() < 0.4:
         return ["redo"]
+    if drv.lib and rng.random() < 0.09:
+        # the library folder changes behind rope's back
+        have = sorted(os.listdir(drv.lib))
+        k = rng.random()
+        if have and k < 0.7:
+            nm = rng.choice(have)
+            return ["libedit", nm, gen_lib_text(rng, int(nm[2:-3]))]
+        missing = [n for n in ("zl%d.py" % j for j in range(NLIB)) if n not in have]
+        if missing and k < 0.85:
+            nm = rng.choice(missing)
+            return ["libcreate", nm, gen_lib_text(rng, int(nm[2:-3]))]
+        if have:
+            return ["libremove", rng.choice(have)]
+
     if rng.random() < 0.04:
         # an editor backup (ignored by the default pattern "*~") is restored under the module's name through rope,
         # or a module is renamed to its backup name
@@ -734,7 +807,8 @@ def gen_selection(rng, tree, full=False):
     else:
         if rng.random() < 0.5:
             sel["files"] = True
-        sel["find"] = ["zm%d" % k for k in range(W.NMOD) if rng.random() < 0.4]
+        sel["find"] = ["zm%d" % k for k in range(W.NMOD) if rng.random() < 0.4] + \
+                      ["zl%d" % k for k in range(NLIB) if rng.random() < 0.3]
         sel["modules"] = [m for m in mods if rng.random() < 0.5]
         if rng.random() < 0.08:
             sel["copy"] = True
@@ -837,8 +911,7 @@ def diagnose(drv, stale, dangling):
             return "cached-module-indicator-out-of-date"
     fl = pj.file_list.files
     if fl is not None:
-        from rope.base.project import Project
-        fp = Project(drv.root, ropefolder=None)
+        fp = drv.new_project(drv.root)
         try:
             if set(r.path for r in fl) != set(r.path for r in fp.get_files()):
                 return "file-list-out-of-date"
@@ -852,8 +925,7 @@ def diagnose(drv, stale, dangling):
 def star_cycle(drv):
     """is there a cycle of `from m import *` among the modules on disk (resolved like a brand-new project does)?"""
     import ast
-    from rope.base.project import Project
-    fp = Project(drv.root, ropefolder=None)
+    fp = drv.new_project(drv.root)
     edges = {}
     try:
         for f in fp.get_python_files():
@@ -1128,6 +1200,8 @@ def _check_pool_names():
         p = Project(root, ropefolder=None)
         for k in range(W.NMOD):
             assert p.find_module("zm%d" % k) is None, "zm%d is importable from sys.path" % k
+        for k in range(NLIB):
+            assert p.find_module("zl%d" % k) is None, "zl%d is importable from sys.path" % k
         p.close()
     finally:
         shutil.rmtree(root, ignore_errors=True)
